@@ -284,5 +284,6 @@ func c09EndToEnd(ctx *Ctx) {
 			}
 		}
 	}
+	frontPhase(ctx)
 	_ = strings.ToLower
 }
